@@ -95,7 +95,14 @@ def check_case(case: Dict[str, Any], acc: Acc):
         operation_durations=OperationDurationParameters(**st["durations"]),
     )
     index_map = {int(i): QubitIDObj(n) for i, n in case["index_map"].items()}
-    noisy = apply_noise(sc, qubit_index_map=index_map, noise_settings=settings)
+    try:
+        noisy = apply_noise(sc, qubit_index_map=index_map, noise_settings=settings)
+    except Exception as exc:
+        # Stim validates probabilities when an instruction is built: an out-of-range value surfaces as an exception here
+        kind = "probability/range" if "probab" in str(exc).lower() or "disjoint" in str(exc).lower() else "noise/raises"
+        acc.finding(kind, f"apply_noise raises {type(exc).__name__} for valid noise settings", wrap, {"error": str(exc)[:200]})
+        case["_nontrivial"] = False
+        return
     acc.count("circuits_dressed")
 
     def params(q: int) -> Tuple[float, float, float]:
